@@ -364,6 +364,7 @@ type UpdateSpec struct {
 	ForceMP  bool // encode IPv4 through MP_REACH/MP_UNREACH
 	ASN4     bool
 	AddPath  bool
+	AlsoNextHop bool // multiprotocol encoding plus a NEXT_HOP attribute
 	// omit well-known attributes deliberately (malformed-input generation)
 	OmitOrigin, OmitASPath, OmitNextHop bool
 }
@@ -487,7 +488,14 @@ func EncodeUpdate(u UpdateSpec) []byte {
 				v = append(v, encNLRI(n, u.AddPath)...)
 			}
 			attrs = append(attrs, encAttr(0x80, AttrMPReach, v)...)
-			attrs = append(attrs, EncodeAttrs(a, u.ASN4, false)...)
+			if u.AlsoNextHop {
+				b := a
+				b.NextHop = [16]byte{10, 9, 9, 9}
+				b.NextHopV6 = false
+				attrs = append(attrs, EncodeAttrs(b, u.ASN4, true)...)
+			} else {
+				attrs = append(attrs, EncodeAttrs(a, u.ASN4, false)...)
+			}
 		}
 		if len(u.Withdraw) > 0 {
 			var v []byte
